@@ -42,6 +42,15 @@
     none, through DROP COLUMN's clean-up too (the key loses the column; a key left empty is forgotten) — a third pass
     beside `Rel` and `ElemsOK` (Proofs/FidelityPk.lean).
 
+  * `postgres_fragment` — **the Postgres reader glue simulates the reference engine on its loss-free fragment**: for
+    every script of any length made of CREATE TABLE / ADD COLUMN with option-free columns, DROP COLUMN and the Postgres
+    spellings of MODIFY COLUMN (`ALTER COLUMN … TYPE`, `ALTER COLUMN … DROP NOT NULL`) on names the parser does not
+    quote, that the reference engine accepts from the empty schema, the reader model loads it without error and the
+    loaded model has exactly the reference schema's tables in order, each with exactly its columns (name and type) in
+    order (Proofs/FidelityPg.lean: the same relation `Rel`, one commuting square per statement, the merge branch of
+    `Table.AddColumn` taken with the Postgres type — the branch repaired by FX-pg-alter-column-type; before the repair
+    the square for ALTER COLUMN … TYPE did not commute, and neither did the one for DROP NOT NULL, FX-pg-drop-not-null).
+
   Missing: the same for an inline PRIMARY KEY (the model keeps it as an option of the column: two representations of
   a key, recorded finding `pk-inline-vs-table-level`), and for RENAME COLUMN (a
   renamed record is no longer a plain `add` record: recorded region `rename-column`).  They are covered by correspondence (white-box state after every script, including the position maps,
@@ -54,6 +63,7 @@ import SqlizeModel.Proofs.ReaderPending
 import SqlizeModel.Proofs.FidelityMain
 import SqlizeModel.Proofs.FidelityElems
 import SqlizeModel.Proofs.FidelityPk
+import SqlizeModel.Proofs.FidelityPg
 
 namespace Sqlize.C05
 open Sqlize Sqlize.Spec
@@ -187,6 +197,27 @@ example : (ReaderMysql.run {} exScript).toOption.map colView = some [("t", ["z",
 example : (ReaderMysql.run {} exScript).toOption.map ReaderMysql.typedView =
     some [("t", [("z", some "text"), ("a", some "int(11)"), ("c", some "longtext")]),
           ("u", [("y", some "text"), ("x", some "int(11)")])] := by rfl
+
+/-- the Postgres reader glue on its loss-free fragment: tables, column names, positions and types -/
+theorem postgres_fragment (rc : Bool) (ss : List Stmt) (db : DB) (hs : ss.all Stmt.pgSafe = true)
+    (he : execAll rc [] ss = some db) :
+    ∃ m, ReaderPg.run {} ss = .ok m ∧ ReaderMysql.typedView m = ReaderMysql.typedSpec db ∧ m.Inv ∧ m.NoPending :=
+  ReaderPg.fidelity rc ss db hs he
+
+-- non-vacuity: two tables, a column added to the first after the second was created, a drop, two retypes, DROP NOT NULL
+def exPg : List Stmt :=
+  [.createTable "t" 0 [{ name := "a", typ := "INT8" }, { name := "b", typ := "VARCHAR(64)" }] [],
+   .createTable "u" 0 [{ name := "x", typ := "INT8" }] [],
+   .addColumn "t" { name := "c", typ := "INT4" } .none,
+   .alterType "t" "b" "STRING",
+   .dropColumn "t" "a",
+   .alterType "t" "c" "INT8",
+   .dropNotNull "t" "b"]
+example : exPg.all Stmt.pgSafe = true := by decide
+example : (execAll true [] exPg).map ReaderMysql.typedSpec =
+    some [("t", [("b", some "STRING"), ("c", some "INT8")]), ("u", [("x", some "INT8")])] := by decide
+example : (ReaderPg.run {} exPg).toOption.map ReaderMysql.typedView =
+    some [("t", [("b", some "STRING"), ("c", some "INT8")]), ("u", [("x", some "INT8")])] := by rfl
 
 /-- regenerated fact: in every `Parser*` function the parse call and its `return err` precede the first edit -/
 theorem parse_before_edit : ∀ p ∈ Facts.parseBeforeEdit, p.2 = true := by decide
